@@ -169,4 +169,54 @@ Proof.
   apply (filt_zero_coeff_zero x m c Hx); [|exact Hj].
   intros n Hn. exact (sum_nrm2_zero _ _ E' n Hn).
 Qed.
+(* ---------- ordered field: the side conditions of the algebraic theorems are automatic ---------- *)
+Lemma energy_pos (x : list F) : (exists t, (t < length x)%nat /\ nthF x t <> 0) -> pos (energy x).
+Proof.
+  intros [t [Ht Hx]]. split; [apply energy_nonneg|]. intros E. apply Hx.
+  exact (sum_nrm2_zero (length x) (fun j => nthF x j) E t Ht).
+Qed.
+Lemma mean_pow_pos (x : list F) : (exists t, (t < length x)%nat /\ nthF x t <> 0) -> pos (mean_pow x).
+Proof.
+  intros Hx. rewrite mean_pow_sumf. apply pos_div; [exact (energy_pos x Hx)|].
+  apply pos_ofnat. destruct Hx as [t [Ht _]]. lia.
+Qed.
+
+(* the coeff-normalised autocorrelation of a non-zero sequence: 1 at lag 0, lagsum / sum|x|^2 elsewhere,
+   and bounded by 1 in modulus *)
+Theorem acorr_coeff_bound_thm (x : list F) oml r k :
+  acorr_c x oml Coeff = inr r -> (exists t, (t < length x)%nat /\ nthF x t <> 0) ->
+  (k <= the_ml (length x) oml)%nat ->
+  nthF r O = 1 /\ ((1 <= k)%nat -> nthF r k = lagsum (length x) x x k / energy x) /\ le (nrm2 (nthF r k)) 1.
+Proof.
+  intros H Hx Hk. destruct (acorr_c_some _ _ _ _ H) as [_ HN]. assert (HN0 : ofnat (length x) <> 0) by apply HN.
+  pose proof (energy_pos x Hx) as HE. assert (HE0 : energy x <> 0) by apply HE.
+  pose proof (mean_pow_pos x Hx) as HM. assert (HM0 : mean_pow x <> 0) by apply HM.
+  destruct (acorr_c_def_thm _ _ _ _ H) as (Hml & _ & _ & H0). cbv zeta in *.
+  assert (Hk1 : (1 <= k)%nat -> nthF r k = lagsum (length x) x x k / energy x).
+  { intros Hk1. rewrite (acorr_c_coeff_thm x oml r k H) by (try lia; assumption).
+    rewrite mean_pow_sumf. fold (energy x). field. split; assumption. }
+  split; [exact H0|]. split; [exact Hk1|].
+  destruct (Nat.eq_dec k 0) as [->|Hk0].
+  - rewrite H0. unfold nrm2. rewrite conj_1. apply (nonneg_eq 0); [ring|apply nonneg_0].
+  - rewrite Hk1 by lia. set (s := lagsum _ _ _ _).
+    assert (Er : conj (energy x) = energy x) by (apply nn_real; apply energy_nonneg).
+    assert (E1 : nrm2 (s / energy x) = nrm2 s / (energy x * energy x)).
+    { unfold nrm2. rewrite conj_div, Er by exact HE0. field. exact HE0. }
+    assert (E2 : 1 = energy x * energy x / (energy x * energy x)) by (field; exact HE0).
+    assert (Hkl : (k <= length x)%nat) by lia.
+    pose proof (le_div_pos _ _ (energy x * energy x) (pos_mul _ _ HE HE) (lagsum_cs x k Hkl)) as Hle.
+    rewrite <- E2 in Hle. fold s in Hle. rewrite E1. exact Hle.
+Qed.
+
+(* conj(r_yx[k]) at lag -k, without the characteristic side condition *)
+Theorem xcorr_neg_ord_thm rp (x y : list F) oml nm rxy lxy ryx lyx k :
+  xcorr_c rp x (Some y) oml nm = inr (rxy, lxy) -> xcorr_c rp y (Some x) oml nm = inr (ryx, lyx) ->
+  (k <= the_ml (length x) oml)%nat -> pos rp ->
+  nthF rxy (the_ml (length x) oml - k) = conj (nthF ryx (the_ml (length x) oml + k)).
+Proof.
+  intros Hxy Hyx Hk Hrp. apply (xcorr_c_neg_thm rp x y oml nm rxy lxy ryx lyx k Hxy Hyx Hk).
+  - exact (pos_real rp Hrp).
+  - apply Hrp.
+  - intros n Hn. apply (pos_ofnat n). lia.
+Qed.
 End CorrOrd.
